@@ -99,7 +99,11 @@ impl Operator for DistinctOperator {
                 return Ok(None);
             };
 
-            let mut builder = DataChunkBuilder::with_capacity(&self.output_schema, 2048);
+            // One output chunk per input chunk: sized to hold every row of it
+            let mut builder = DataChunkBuilder::with_capacity(
+                &self.output_schema,
+                chunk.row_count().max(2048),
+            );
 
             for row in chunk.selected_indices() {
                 let key = match &self.distinct_columns {
@@ -121,10 +125,6 @@ impl Operator for DistinctOperator {
                         }
                     }
                     builder.advance_row();
-
-                    if builder.is_full() {
-                        return Ok(Some(builder.finish()));
-                    }
                 }
             }
 
